@@ -269,4 +269,440 @@ theorem c14_operands_intact (st : List Fluent.NodeArray) (op : FOp) :
 example : (step [Fluent.fromSource [("d0", [.int 0])] 0, Fluent.fromSource [("d0", [.int 5])] 1]
     (.join 0 1 (.name "w") true)).length = 3 := by decide
 
+/-! ### C14 — no operation changes an existing action (heap level, `Action.transform` included) -/
+
+/-- `h` extends `h0` without changing any of its cells -/
+def Keeps (h0 h : Heap) : Prop := h0.length ≤ h.length ∧ ∀ k, k < h0.length → h[k]? = h0[k]?
+
+namespace Aux
+
+theorem keeps_refl (h : Heap) : Keeps h h := ⟨Nat.le_refl _, fun _ _ => rfl⟩
+
+theorem keeps_trans {h0 h1 h2 : Heap} (a : Keeps h0 h1) (b : Keeps h1 h2) : Keeps h0 h2 :=
+  ⟨Nat.le_trans a.1 b.1, fun k hk => by rw [b.2 k (Nat.lt_of_lt_of_le hk a.1), a.2 k hk]⟩
+
+theorem keeps_append {h0 h : Heap} (l : Heap) (a : Keeps h0 h) : Keeps h0 (h ++ l) := by
+  refine ⟨by simp; have := a.1; omega, fun k hk => ?_⟩
+  rw [List.getElem?_append_left (Nat.lt_of_lt_of_le hk a.1)]
+  exact a.2 k hk
+
+/-- a write to a cell that did not exist in `h0` -/
+theorem keeps_set {h0 h : Heap} (r : Nat) (x : Fluent.NodeArray) (a : Keeps h0 h) (hr : h0.length ≤ r) :
+    Keeps h0 (h.set r x) := by
+  refine ⟨by simp; exact a.1, fun k hk => ?_⟩
+  rw [List.getElem?_set_ne (by omega)]
+  exact a.2 k hk
+
+theorem callFunc_keeps {P : Type} {h0 h h1 : Heap} {a r : Nat} {f : TFunc P} {p : P}
+    (k : Keeps h0 h) (e : callFunc h a f p = .ok (h1, r)) : Keeps h0 h1 := by
+  cases f with
+  | build g =>
+    simp only [callFunc] at e
+    split at e
+    · injection e with e; injection e with e1 e2; subst e1; exact keeps_append _ k
+    · cases e
+  | self => simp only [callFunc] at e; injection e with e; injection e with e1 e2; subst e1; exact k
+  | lookup t =>
+    simp only [callFunc] at e
+    split at e
+    · injection e with e; injection e with e1 e2; subst e1; exact k
+    · cases e
+
+theorem addDimAt_keeps {h0 h h' : Heap} {r : Nat} {d : String} {vs : List Fluent.Coord} {i ax : Nat}
+    (k : Keeps h0 h) (hr : h0.length ≤ r) (e : addDimAt h r d vs i ax = .ok h') :
+    Keeps h0 h' ∧ h'.length = h.length := by
+  unfold addDimAt at e
+  split at e
+  · injection e with e; subst e; exact ⟨k, rfl⟩
+  · split at e
+    · cases e
+    · split at e
+      · injection e with e; subst e; exact ⟨keeps_set _ _ k hr, by simp⟩
+      · cases e
+
+theorem squeezeAt_keeps {h0 h h' : Heap} {r : Nat} {d : String}
+    (k : Keeps h0 h) (hr : h0.length ≤ r) (e : squeezeAt h r d = .ok h') :
+    Keeps h0 h' ∧ h'.length = h.length := by
+  unfold squeezeAt at e
+  split at e
+  · injection e with e; subst e; exact ⟨keeps_set _ _ k hr, by simp⟩
+  · cases e
+
+theorem accumulate_keeps {h0 h h' : Heap} {res : Option Nat} {r r' : Nat} {d : String}
+    (k : Keeps h0 h) (hr : h0.length ≤ r ∧ r < h.length) (e : accumulate h res r d = .ok (h', r')) :
+    Keeps h0 h' ∧ h0.length ≤ r' ∧ r' < h'.length := by
+  unfold accumulate at e
+  split at e
+  · injection e with e; injection e with e1 e2; subst e1; subst e2; exact ⟨k, hr⟩
+  · split at e
+    · injection e with e; injection e with e1 e2; subst e1; subst e2
+      exact ⟨keeps_append _ k, k.1, by simp⟩
+    · cases e
+
+/-- one iteration of the loop as the code is (`Rewrap.always`): every write goes to a cell created in
+this iteration -/
+theorem transformIter_keeps {P : Type} {h0 h h' : Heap} {f : TFunc P} {d : String} {vs : List Fluent.Coord}
+    {ax a i r : Nat} {p : P} {res : Option Nat} (k : Keeps h0 h)
+    (e : transformIter .always f d vs ax a h p i res = .ok (h', r)) :
+    Keeps h0 h' ∧ h0.length ≤ r ∧ r < h'.length := by
+  unfold transformIter at e
+  split at e
+  · cases e
+  · rename_i h1 r1 hc
+    have k1 := callFunc_keeps k hc
+    simp only [rewrap, Rewrap.applies, if_true] at e
+    split at e
+    · cases e
+    · rename_i h3 ha
+      have k2 : Keeps h0 (h1 ++ [h1.cell r1]) := keeps_append _ k1
+      obtain ⟨k3, hl⟩ := addDimAt_keeps k2 k1.1 ha
+      exact accumulate_keeps k3 ⟨k1.1, by rw [hl]; simp⟩ e
+
+theorem transformLoopH_keeps {P : Type} {h0 : Heap} {f : TFunc P} {d : String} {vs : List Fluent.Coord} {ax a : Nat} :
+    ∀ (ps : List P) (h h' : Heap) (i : Nat) (res res' : Option Nat), Keeps h0 h →
+      (∀ r, res = some r → h0.length ≤ r ∧ r < h.length) →
+      transformLoopH .always f d vs ax a h ps i res = .ok (h', res') →
+      Keeps h0 h' ∧ ∀ r, res' = some r → h0.length ≤ r ∧ r < h'.length := by
+  intro ps
+  induction ps with
+  | nil =>
+    intro h h' i res res' k hres e
+    simp only [transformLoopH] at e
+    injection e with e; injection e with e1 e2; subst e1; subst e2
+    exact ⟨k, hres⟩
+  | cons p ps ih =>
+    intro h h' i res res' k hres e
+    simp only [transformLoopH] at e
+    split at e
+    · cases e
+    · rename_i h1 r1 hi
+      obtain ⟨k1, hr1⟩ := transformIter_keeps k hi
+      exact ih h1 h' (i + 1) (some r1) res' k1 (fun r hr => by injection hr with hr; subst hr; exact hr1) e
+
+end Aux
+
+open Aux in
+/-- **`transform` never changes an existing action** — whatever `func` hands back (a new action, the
+receiver, or ANY action built before, e.g. a look-up in a table of products), for every heap, receiver,
+parameter list, dimension and axis: after `a.transform(func, params, dim, axis)` every action object that
+existed before holds the node array (dimensions, coordinates, nodes) it held before, and the result is
+a new object. The in-place `_add_dimension` / `_squeeze_dimension` only ever hit objects created inside
+the call. -/
+theorem c14_transform_intact {P : Type} (h : Heap) (a : Nat) (f : TFunc P) (params : List P)
+    (dim : Fluent.DimArg) (axis : Nat) (h' : Heap) (r : Nat)
+    (e : transformH .always h a f params dim axis = .ok (h', r)) :
+    (∀ k, k < h.length → h'[k]? = h[k]?) ∧ h.length ≤ r ∧ r < h'.length := by
+  unfold transformH at e
+  split at e
+  · cases e
+  · cases e
+  · rename_i h1 r1 hl
+    obtain ⟨k1, hr⟩ := transformLoopH_keeps params h h1 0 none (some r1) (keeps_refl h) (by intro r hr; cases hr) hl
+    obtain ⟨hr1, hr2⟩ := hr r1 rfl
+    split at e
+    · rename_i h2 hs
+      injection e with e; injection e with e1 e2; subst e1; subst e2
+      obtain ⟨k2, hl2⟩ := squeezeAt_keeps k1 hr1 hs
+      exact ⟨k2.2, hr1, by rw [hl2]; exact hr2⟩
+    · cases e
+
+/-- non-vacuity: a look-up that hands back the existing action 1 twice succeeds, leaves cells 0 and 1
+as they were and puts the result (dims `t, d0`) into a new cell -/
+example :
+    let h : Heap := [Fluent.fromSource [("d0", [.int 0, .int 10])] 0, Fluent.fromSource [("d0", [.int 0, .int 10])] 2]
+    (match transformH .always h 0 (.lookup (fun (_ : Nat) => 1)) [0, 1] (.name "t") 0 with
+     | .ok (h', r) => (h'.map (·.dimNames), r)
+     | .error _ => ([], 0)) = ([["d0"], ["d0"], ["t", "d0"], ["t", "d0"], ["t", "d0"]], 4) := by decide
+
+open Aux in
+/-- **…as an invariant over every history**: for every program — any sequence of joins, broadcasts,
+arithmetic between actions, stack/concatenate, reduce, select and transforms with any `func` — and every
+initial heap, every action object that existed at some point still holds the same node array at the end. -/
+theorem c14_history_intact {P : Type} (ops : List (HOp P)) (h : Heap) :
+    h.length ≤ (hrun .always h ops).length ∧ ∀ k, k < h.length → (hrun .always h ops)[k]? = h[k]? := by
+  induction ops generalizing h with
+  | nil => exact keeps_refl h
+  | cons o os ih =>
+    have k1 : Keeps h (hstep .always h o) := by
+      cases o with
+      | op o => exact ⟨(c14_operands_intact h o).2.1, (c14_operands_intact h o).1⟩
+      | transform a f ps dim axis =>
+        simp only [hstep]
+        split
+        · rename_i h' r e
+          have := c14_transform_intact h a f ps dim axis h' r e
+          exact ⟨by omega, this.1⟩
+        · exact keeps_refl h
+    exact keeps_trans k1 (ih (hstep .always h o))
+
+example : ((hrun .always [Fluent.fromSource [("d0", [.int 0])] 0, Fluent.fromSource [("d0", [.int 5])] 1]
+    [HOp.op (.join 0 1 (.name "w") true), HOp.transform 0 (.lookup (fun (_ : Nat) => 2)) [0] (.name "t") 0]).map (·.dimNames))
+    = [["d0"], ["d0"], ["w", "d0"], ["w", "d0"]] := by decide
+
+/-- **The re-wrap is necessary, and for every result, not only for the receiver**: if `transform` wraps
+`func`'s result in a new object only when it `is self` (or never), a `func` that looks up an existing
+action makes `transform` add the join dimension to that action itself. -/
+theorem c14_rewrap_needed :
+    (∃ (h : Heap) (op : HOp Nat) (k : Nat), k < h.length ∧
+      ((hstep .ifSelf h op)[k]?.map (·.dimNames)) ≠ (h[k]?.map (·.dimNames))) ∧
+    (∃ (h : Heap) (op : HOp Nat) (k : Nat), k < h.length ∧
+      ((hstep .never h op)[k]?.map (·.dimNames)) ≠ (h[k]?.map (·.dimNames))) := by
+  refine ⟨⟨[Fluent.fromSource [("d0", [.int 0, .int 10])] 0, Fluent.fromSource [("d0", [.int 0, .int 10])] 2],
+            .transform 0 (.lookup (fun _ => 1)) [0, 1] (.name "t") 0, 1, by decide, by decide⟩,
+          ⟨[Fluent.fromSource [("d0", [.int 0, .int 10])] 0],
+            .transform 0 .self [0, 1] (.name "t") 0, 0, by decide, by decide⟩⟩
+
+/-! ### C14 — the heap model agrees with the value model of C13 -/
+
+open EkwVerif.Fluent
+
+namespace Aux
+
+/-- the step of the value-level loop written with matches -/
+def stepV {P : Type} (f : NodeArray → P → Except Err NodeArray) (d : String) (vs : List Coord) (ax : Nat)
+    (a : NodeArray) (p : P) (i : Nat) (res : Option NodeArray) : Except Err NodeArray :=
+  match f a p with
+  | .error e => .error e
+  | .ok r =>
+    match (if r.hasCoord d then (.ok r : Except Err NodeArray) else
+            match vs[i]? with
+            | none => .error .index
+            | some v => addDim r d v ax) with
+    | .error e => .error e
+    | .ok r' =>
+      match res with
+      | none => .ok r'
+      | some acc => join acc r' (.name d) false
+
+theorem transformLoop_cons {P : Type} (f : NodeArray → P → Except Err NodeArray) (d : String) (vs : List Coord) (ax : Nat)
+    (a : NodeArray) (p : P) (ps : List P) (i : Nat) (res : Option NodeArray) :
+    transformLoop f d vs ax a (p :: ps) i res =
+      match stepV f d vs ax a p i res with
+      | .error e => .error e
+      | .ok r => transformLoop f d vs ax a ps (i + 1) (some r) := by
+  simp only [transformLoop, stepV, bind, Except.bind, pure, Except.pure]
+  cases f a p with
+  | error e => rfl
+  | ok r =>
+    dsimp only
+    by_cases hc : r.hasCoord d
+    · simp only [hc, if_true]
+      cases res with
+      | none => rfl
+      | some acc => dsimp only; cases join acc r (.name d) false <;> rfl
+    · simp only [hc, Bool.false_eq_true, ↓reduceIte]
+      cases vs[i]? with
+      | none => rfl
+      | some v =>
+        dsimp only
+        cases addDim r d v ax with
+        | error e => rfl
+        | ok r' =>
+          cases res with
+          | none => rfl
+          | some acc => dsimp only; cases join acc r' (.name d) false <;> rfl
+
+
+theorem cell_eq_of_keeps {h0 h : Heap} (k : Keeps h0 h) {i : Nat} (hi : i < h0.length) : h.cell i = h0.cell i := by
+  simp only [Heap.cell, List.getD_eq_getElem?_getD, k.2 i hi]
+
+theorem cell_append_left (h l : Heap) {i : Nat} (hi : i < h.length) : (h ++ l).cell i = h.cell i := by
+  simp only [Heap.cell, List.getD_eq_getElem?_getD, List.getElem?_append_left hi]
+
+theorem cell_append_length (h : Heap) (x : NodeArray) (l : Heap) : (h ++ x :: l).cell h.length = x := by
+  simp [Heap.cell, List.getD_eq_getElem?_getD]
+
+theorem cell_set_eq (h : Heap) {r : Nat} (x : NodeArray) (hr : r < h.length) : Heap.cell (h.set r x) r = x := by
+  simp [Heap.cell, List.getD_eq_getElem?_getD, hr]
+
+theorem cell_set_ne (h : Heap) {r i : Nat} (x : NodeArray) (hr : r ≠ i) : Heap.cell (h.set r x) i = h.cell i := by
+  simp [Heap.cell, List.getD_eq_getElem?_getD, List.getElem?_set_ne hr]
+
+/-- one iteration with a func that builds a new action: the heap step computes the value-level step, in a
+new cell, and keeps every cell -/
+theorem transformIter_build {P : Type} {h h' : Heap} {f : NodeArray → P → Except Err NodeArray} {d : String}
+    {vs : List Coord} {ax a i r : Nat} {p : P} {res : Option Nat}
+    (hres : ∀ acc, res = some acc → acc < h.length)
+    (e : transformIter .always (.build f) d vs ax a h p i res = .ok (h', r)) :
+    stepV f d vs ax (h.cell a) p i (res.map h.cell) = .ok (h'.cell r) ∧ Keeps h h' ∧ r < h'.length := by
+  have kk := transformIter_keeps (keeps_refl h) e
+  refine ⟨?_, kk.1, kk.2.2⟩
+  unfold transformIter at e
+  simp only [callFunc] at e
+  unfold stepV
+  cases hf : f (h.cell a) p with
+  | error err => simp [hf] at e
+  | ok x =>
+    simp only [hf, rewrap, Rewrap.applies, if_true] at e
+    dsimp only
+    have hx : ((h ++ [x]) ++ [(h ++ [x]).cell h.length]) = h ++ [x, x] := by
+      rw [cell_append_length h x []]; simp
+    have hlen : (h ++ [x]).length = h.length + 1 := by simp
+    rw [hlen, hx] at e
+    have hc2 : (h ++ [x, x]).cell (h.length + 1) = x := by
+      have := cell_append_length (h ++ [x]) x []
+      simpa [hlen] using this
+    unfold addDimAt at e
+    rw [hc2] at e
+    by_cases hc : x.hasCoord d
+    · simp only [hc, if_true] at e ⊢
+      cases res with
+      | none =>
+        simp only [accumulate] at e
+        injection e with e; injection e with e1 e2; subst e1; subst e2
+        rw [hc2]; rfl
+      | some acc =>
+        have hacc := hres acc rfl
+        simp only [accumulate, Option.map] at e ⊢
+        have ha : (h ++ [x, x]).cell acc = h.cell acc := cell_append_left h _ hacc
+        rw [ha, hc2] at e
+        cases hj : join (h.cell acc) x (.name d) false with
+        | error err => simp [hj] at e
+        | ok j =>
+          simp only [hj] at e
+          injection e with e; injection e with e1 e2; subst e1; subst e2
+          have := cell_append_length (h ++ [x, x]) j []
+          rw [this]
+    · simp only [hc, Bool.false_eq_true, ↓reduceIte] at e ⊢
+      cases hv : vs[i]? with
+      | none => simp [hv] at e
+      | some v =>
+        simp only [hv] at e ⊢
+        cases had : addDim x d v ax with
+        | error err => simp [had] at e
+        | ok x' =>
+          simp only [had] at e ⊢
+          have hlt : h.length + 1 < (h ++ [x, x]).length := by simp
+          have hc3 : Heap.cell ((h ++ [x, x]).set (h.length + 1) x') (h.length + 1) = x' := cell_set_eq _ x' hlt
+          cases res with
+          | none =>
+            simp only [accumulate] at e
+            injection e with e; injection e with e1 e2; subst e1; subst e2
+            rw [hc3]; rfl
+          | some acc =>
+            have hacc := hres acc rfl
+            simp only [accumulate, Option.map] at e ⊢
+            have ha : Heap.cell ((h ++ [x, x]).set (h.length + 1) x') acc = h.cell acc := by
+              rw [cell_set_ne _ x' (by omega), cell_append_left h _ hacc]
+            rw [ha, hc3] at e
+            cases hj : join (h.cell acc) x' (.name d) false with
+            | error err => simp [hj] at e
+            | ok j =>
+              simp only [hj] at e
+              injection e with e; injection e with e1 e2; subst e1; subst e2
+              have := cell_append_length ((h ++ [x, x]).set (h.length + 1) x') j []
+              rw [this]
+
+theorem transformLoopH_build {P : Type} {f : NodeArray → P → Except Err NodeArray} {d : String}
+    {vs : List Coord} {ax a : Nat} :
+    ∀ (ps : List P) (h h' : Heap) (i : Nat) (res res' : Option Nat), a < h.length →
+      (∀ acc, res = some acc → acc < h.length) →
+      transformLoopH .always (.build f) d vs ax a h ps i res = .ok (h', res') →
+      transformLoop f d vs ax (h.cell a) ps i (res.map h.cell) = .ok (res'.map h'.cell) ∧ Keeps h h' ∧
+        ∀ r, res' = some r → r < h'.length := by
+  intro ps
+  induction ps with
+  | nil =>
+    intro h h' i res res' _ hres e
+    simp only [transformLoopH] at e
+    injection e with e; injection e with e1 e2; subst e1; subst e2
+    exact ⟨by simp [transformLoop], keeps_refl h, hres⟩
+  | cons p ps ih =>
+    intro h h' i res res' ha hres e
+    simp only [transformLoopH] at e
+    split at e
+    · cases e
+    · rename_i h1 r1 hi
+      obtain ⟨hs, k1, hr1⟩ := transformIter_build hres hi
+      obtain ⟨hl, k2, hr2⟩ := ih h1 h' (i + 1) (some r1) res' (Nat.lt_of_lt_of_le ha k1.1)
+        (fun acc hacc => by injection hacc with hacc; subst hacc; exact hr1) e
+      refine ⟨?_, keeps_trans k1 k2, hr2⟩
+      rw [transformLoop_cons, hs]
+      rw [cell_eq_of_keeps k1 ha] at hl
+      exact hl
+
+theorem transform_eq {P : Type} (f : NodeArray → P → Except Err NodeArray) (params : List P) (dim : DimArg) (axis : Nat)
+    (A : NodeArray) :
+    Fluent.transform f params dim axis A =
+      match transformLoop f dim.dimName (dimValues dim params.length) axis A params 0 none with
+      | .error e => .error e
+      | .ok none => .error .value
+      | .ok (some res) => squeeze res dim.dimName false := by
+  cases dim with
+  | name dn =>
+    simp only [Fluent.transform, dimValues, bind, Except.bind]
+    cases transformLoop f (DimArg.name dn).dimName (intLabels params.length) axis A params 0 none with
+    | error e => rfl
+    | ok v => cases v <;> rfl
+  | coord dn ls =>
+    simp only [Fluent.transform, dimValues, bind, Except.bind]
+    cases transformLoop f (DimArg.coord dn ls).dimName ls axis A params 0 none with
+    | error e => rfl
+    | ok v => cases v <;> rfl
+
+end Aux
+
+open Aux in
+/-- **The heap model computes what the value model computes**: for a func that builds new actions from
+the receiver, the cell `transform` returns holds exactly `Fluent.transform` of the receiver's node array
+(the model C13 reasons about and ties to the real graphs). -/
+theorem c14_transform_refines {P : Type} (h : Heap) (a : Nat) (f : NodeArray → P → Except Err NodeArray)
+    (params : List P) (dim : DimArg) (axis : Nat) (h' : Heap) (r : Nat) (ha : a < h.length)
+    (e : transformH .always h a (.build f) params dim axis = .ok (h', r)) :
+    Fluent.transform f params dim axis (h.cell a) = .ok (h'.cell r) := by
+  unfold transformH at e
+  split at e
+  · cases e
+  · cases e
+  · rename_i h1 r1 hl
+    obtain ⟨hv, k1, hr⟩ := transformLoopH_build params h h1 0 none (some r1) ha (by intro _ hh; cases hh) hl
+    have hr1 := hr r1 rfl
+    split at e
+    · rename_i h2 hs
+      injection e with e; injection e with e1 e2; subst e1; subst e2
+      unfold squeezeAt at hs
+      rw [transform_eq]
+      simp only [Option.map] at hv
+      rw [hv]
+      dsimp only
+      cases hq : squeeze (h1.cell r1) dim.dimName false with
+      | error err => simp [hq] at hs
+      | ok x =>
+        simp only [hq] at hs
+        injection hs with hs; subst hs
+        rw [cell_set_eq h1 x hr1]
+    · cases e
+
+example :
+    let h : Heap := [Fluent.fromSource [("d0", [.int 0, .int 10])] 0]
+    (match transformH .always h 0 (.build (fun a (k : Int) => .ok (Fluent.arithScalar "multiply" (.num k) a))) [2, 3] (.name "t") 0 with
+     | .ok (h', r) => (h'.length, r, (h'.cell r).dimNames)
+     | .error _ => (0, 0, [])) = (6, 5, ["t", "d0"]) := by decide
+
+/-! ### C14 — corollaries: operand order, the set of taken source names -/
+
+/-- **The order of the inputs is part of the name**: the same callable with the same statics over
+different lists of (plain) input names — in particular the same two inputs swapped, `a - b` and `b - a` —
+never get the same name (for an injective hash; nothing is assumed about the statics' rendering). -/
+theorem c14_operand_order {σ : Type} (H : Str → Str) (hH : Function.Injective H) (R : σ → Str)
+    (f : Callable) (s : σ) (xs ys : List Str) (hx : ∀ n ∈ xs, Plain n) (hy : ∀ n ∈ ys, Plain n) (hne : xs ≠ ys) :
+    nodeName H R { func := f, statics := s, inputs := xs } ≠ nodeName H R { func := f, statics := s, inputs := ys } := by
+  intro h
+  simp only [nodeName] at h
+  have h1 := List.append_cancel_left h
+  injection h1 with _ h2
+  have hr := hH h2
+  simp only [render, List.append_assoc] at hr
+  exact hne (Aux.reprNames_inj xs ys hx hy (List.append_cancel_left (List.append_cancel_left hr)))
+
+example : nodeName id renderStatics { func := { name := "subtract".toList, ident := 1 }, statics := ([], []), inputs := ["a".toList, "b".toList] }
+    ≠ nodeName id renderStatics { func := { name := "subtract".toList, ident := 1 }, statics := ([], []), inputs := ["b".toList, "a".toList] } := by
+  decide
+
+/-- **`from_source` must start from an empty set of taken names**: if the set survived a call (a shared
+default argument, a module-level set), building the same sources again would label them differently. -/
+theorem c14_source_labels_fresh_set_needed :
+    ∃ items : List (Str × List Nat), sourceLabels items (sourceLabels items []) ≠ sourceLabels items [] :=
+  ⟨[("load".toList, [0])], by decide⟩
+
 end EkwVerif.Names
